@@ -32,7 +32,7 @@ def extra_tasks(tier):
     return out
 
 
-ORACLES = [oracles.oracle_joliet, master.oracle_roundtrip]
+SWEEP_ORACLES = [oracles.oracle_joliet, master.oracle_roundtrip]
 
 
 def steps_for(cfg, name, is_dir):
@@ -53,7 +53,7 @@ def extra_run(task):
         for is_dir in (False, True):
             case = {'extra': True, 'cfg': cfg, 'steps': steps_for(cfg, name, is_dir)}
             try:
-                status, viols, info = master.evaluate(case, ORACLES, res)
+                status, viols, info = master.evaluate(case, SWEEP_ORACLES, res)
             except Exception as e:
                 # the reference model refuses the name (e.g. longer than 64 units): the implementation must refuse as well
                 status, viols, info = 'model-refused', [], None
@@ -75,7 +75,7 @@ def extra_run(task):
 
 def check_extra(case):
     try:
-        status, viols, info = master.evaluate(case, ORACLES)
+        status, viols, info = master.evaluate(case, SWEEP_ORACLES)
     except Exception:
         impl, info2 = explore.run_history(case['cfg'], case['steps'][:1])
         if impl is not None:
